@@ -223,7 +223,8 @@ func (c *Ctx) Panics(verif string, roots []*ssa.Function, include, armed func(*s
 		}
 		return fn
 	}
-	for pass := 0; pass < 2; pass++ {
+	// pass 2: moved into a helper of the same package *and* reworded (the message is built elsewhere)
+	for pass := 0; pass < 3; pass++ {
 		for _, st := range sites {
 			if st.matched {
 				continue
@@ -233,7 +234,7 @@ func (c *Ctx) Panics(verif string, roots []*ssa.Function, include, armed func(*s
 					continue
 				}
 				efn, edesc := split(k)
-				if (pass == 0 && pkgOf(efn) == pkgOf(st.fn) && edesc == st.desc) || (pass == 1 && efn == st.fn) {
+				if (pass == 0 && pkgOf(efn) == pkgOf(st.fn) && edesc == st.desc) || (pass == 1 && efn == st.fn) || (pass == 2 && pkgOf(efn) == pkgOf(st.fn)) {
 					take(st, k)
 					break
 				}
